@@ -17,7 +17,8 @@ extern struct cmi_hashheap *cmi_verif_event_queue(void);
 #define MAXEV 64
 
 /* signal value classes: the value identifies the kind of cause */
-static inline int64_t SIG_TIMER(int k) { return k == 0 ? CMB_PROCESS_TIMEOUT : (int64_t)(20 + k); }      /* -5, 21, 22 */
+/* timers may carry any non-zero value, including the library's own codes: -5, 21, 22, CANCELLED (-4), STOPPED (-3) */
+static inline int64_t SIG_TIMER(int k) { return k == 0 ? CMB_PROCESS_TIMEOUT : k == 3 ? CMB_PROCESS_CANCELLED : k == 4 ? CMB_PROCESS_STOPPED : (int64_t)(20 + k); }
 static inline int64_t SIG_INTR(int k) { return k == 0 ? CMB_PROCESS_INTERRUPTED : (int64_t)(30 + k); }   /* -2, 31, 32 */
 static inline int64_t SIG_RESUME(int k) { return (int64_t)(41 + k); }
 static inline bool sig_is_timer(int64_t s) { return s == CMB_PROCESS_TIMEOUT || (s >= 21 && s <= 29); }
